@@ -84,6 +84,9 @@ func genC11(seed uint64, run int, tier string) *RunSpec {
 	case 7:
 		spec = genC10(seed, run, tier)
 		c11AddFaults(r, spec)
+		if r.Chance(35) {
+			c11Tear(r, spec)
+		}
 	case 8:
 		spec = genC12(seed, run, "quick")
 	case 9:
@@ -91,6 +94,9 @@ func genC11(seed uint64, run int, tier string) *RunSpec {
 	case 10:
 		spec = genC16(seed, run, tier)
 		c11AddFaults(r, spec)
+		if r.Chance(20) {
+			c11Tear(r, spec)
+		}
 	default:
 		spec = genC17(seed, run, tier)
 	}
@@ -103,6 +109,41 @@ func genC11(seed uint64, run int, tier string) *RunSpec {
 		spec.Engine.MtimeJitter = true // files whose modification time moves on at every look
 	}
 	return spec
+}
+
+// c11Tear replaces one or two files by a prefix of themselves - what a reader sees of a file that is being
+// written, or was cut short by a full disk - optionally with CRLF line ends, with a bias towards cuts inside or
+// right behind the front-matter block (where the loader does its own byte-level parsing).
+func c11Tear(r *Rand, spec *RunSpec) {
+	if len(spec.Files) == 0 {
+		return
+	}
+	for k := 0; k < 1+r.Intn(2); k++ {
+		f := &spec.Files[r.Intn(len(spec.Files))]
+		crlf := r.Chance(50)
+		for v := range f.Versions {
+			c := f.Versions[v].Content
+			if crlf {
+				c = strings.ReplaceAll(c, "\n", "\r\n")
+			}
+			cut := r.Intn(len(c) + 1)
+			if len(c) > 3 && r.Chance(45) {
+				if i := strings.Index(c[3:], "---"); i >= 0 {
+					cut = 3 + i + r.Intn(7)
+					if cut > len(c) {
+						cut = len(c)
+					}
+				}
+			}
+			f.Versions[v].Content = c[:cut]
+			for i := range spec.Ops {
+				if spec.Ops[i].File == f.Name && spec.Ops[i].Source != "" && r.Bool() {
+					spec.Ops[i].Source = c[:cut]
+				}
+			}
+		}
+	}
+	spec.Note += " torn-files"
 }
 
 func c11AddFaults(r *Rand, spec *RunSpec) {
